@@ -106,6 +106,24 @@ func (s *Solver) send(line string) {
 	io.WriteString(s.in, "\n")
 }
 
+// Quick runs f with a short per-query timeout and without portfolio fallbacks (used for optional queries whose
+// only purpose is to find additional counterexample candidates).
+func (s *Solver) Quick(ms int, f func()) {
+	oldNF := s.NoFallback
+	s.NoFallback = true
+	isZ3 := !strings.Contains(s.bin, "cvc5")
+	if isZ3 {
+		s.send(fmt.Sprintf("(set-option :timeout %d)", ms))
+	}
+	defer func() {
+		s.NoFallback = oldNF
+		if isZ3 {
+			s.send(fmt.Sprintf("(set-option :timeout %d)", s.TimeoutMS))
+		}
+	}()
+	f()
+}
+
 func (s *Solver) Push() {
 	s.send("(push 1)")
 	s.level++
